@@ -32,6 +32,10 @@ CHECKS = {
    text="Real element operators run natively on exact values on 2-element conforming patches of all 19 element types: congruence form sum wJ B^T C B (PSD structure), symmetry and kernel inclusion as exact identities; no spurious mode and SPD mass as exact ranks (rank of the image in F_p as sound lower bound matched by the exact kernel upper bound), total mass within 2^-40.",
    note="Bounded: 2-element patches (the smallest meshes of the quantifier), one isotropic law / conductivity; Gauss points are the code's floats read exactly; beams not covered. Known finding: TRI15 mass.",
    technique="contract-based verification, bounded stand-in: symbolic/exact execution of the real operators against postconditions (identities and exact ranks)"),
+ "C14": dict(level="other", design="DESIGN.md 3/C14",
+   text="Invalidation/notification effect contracts (I_obs, I_flag, I_cache) are decided on the AST, path by path, for every method of Mesh, _GroupElem, _Simu and the parameter/observer plumbing; by induction over operations they hold after any sequence of public operations. Complemented by the exhaustive enumeration of operation sequences of bounded length (11-letter mutator alphabet, interleaved assemblies) on a small Elastic simulation against a fresh simulation in the final configuration.",
+   note="E-tier limits: no aliasing/reflection analysis, MPI_SIZE == 1, loops abstracted to 0/1 iterations, effect groups chosen by the contract author (cross-checked by the bounded histories). Histories: one simulation type, length <= 2 (quick) / 3 sampled (thorough), floats with 1e-11.",
+   technique="contract-based verification: frame/effect contracts (must-call on every path) checked on the AST + bounded enumeration of histories as run-time contracts"),
 }
 NOT_APPLICABLE = {
 }
